@@ -4,6 +4,7 @@
 mod record_bdd;
 mod record_env;
 mod replay_bdd;
+mod sets;
 mod util;
 
 use std::io::Write;
@@ -31,6 +32,18 @@ fn main() {
         "replay-env" => {
             drop(out);
             record_env::replay(&args[2..])
+        }
+        "replay-set" => {
+            drop(out);
+            sets::replay(&args[2..])
+        }
+        "record-set" => {
+            drop(out);
+            sets::record(&args[2..])
+        }
+        "exec-set" => {
+            drop(out);
+            sets::exec(&args[2..])
         }
         "exec-env" => {
             drop(out);
